@@ -8,7 +8,7 @@ from harness import core
 ID = 'C26'
 TITLE = 'Temporary row ids resolve consistently within a bundle'
 PROPS = ['Props/C26']
-RULE = ('documents: 3 tables, each with a Ref column R and a RefList column L whose targets are drawn at random (self '
+RULE = ('stream 1 (model + oracle): documents: 3 tables, each with a Ref column R and a RefList column L whose targets are drawn at random (self '
         'references included), 0-4 initial rows with R/L cells; bundles of 1-6 actions drawn from AddRecord/'
         'BulkAddRecord (ids None, temporary negative, explicit fresh or existing), UpdateRecord/BulkUpdateRecord and '
         'RemoveRecord/BulkRemoveRecord whose row ids and R/L values use temporary ids (defined earlier, defined for '
@@ -17,6 +17,10 @@ RULE = ('documents: 3 tables, each with a Ref column R and a RefList column L wh
         'when a temporary id defined by an add is used later in the bundle or an unresolved negative id occurs. '
         'About 12% of the bundles name a row added in the bundle both by its temporary and by its allocated id (and repeatedly) '
         'inside one bulk update/removal, the last occurrence restating the stored value, with no other column set. '
+        'Stream 2 (oracle only, no model): a document with four two-way reference pairs made by AddReverseColumn '
+        '(Ref<->RefList, RefList<->RefList, and both as self pairs); bundles of automatic adds with temporary ids, then '
+        'updates/removals, whose forward and reverse reference cells receive temporary ids of rows added in the bundle; '
+        'each is compared with the same bundle written with the ids that will be allocated. '
         'Add requests also hold explicit ids in any position and, rarely, 0 or a repeated explicit id (rejected).')
 TRUSTED = ['tmp2v translator (harness/tmp2v.py): update_new_rows_map, translate_new_row_ids, _reject_unresolved_temp_ids, '
            'Reference[List]Column.prepare_new_values and the row-id preparation of doBulkUpdateRecord / doBulkRemoveRecord '
@@ -468,7 +472,12 @@ def gen_cases(ctx):
 
 
 def correspond(ctx):
-  validate_translation(ctx)
+  from harness import tmp2v
+  try:
+    validate_translation(ctx)
+  except tmp2v.Untranslatable as e:
+    # already reported by regenerate(); the bundles below are still compared with the model
+    ctx.log('translator validation skipped: the code is outside the translated subset (%s)' % str(e)[:120])
   # (a) ActionSummary.update_new_rows_map / translate_new_row_ids called directly
   import action_summary
   rng = ctx.rng
@@ -704,9 +713,61 @@ def search(ctx):
                                 'bundle': acts})
   for kind, (_k, what, w) in sorted(seen.items()):
     ctx.violation(kind, what, w)
+  search_twoway(ctx)
+
+
+def get_twoway(ctx):
+  tw = getattr(ctx, '_c26_twoway', None)
+  if tw is None:
+    tw = ctx._c26_twoway = TwoWay()
+  return tw
+
+
+def search_twoway(ctx):
+  tw = get_twoway(ctx)
+  empty = {'P0': {'ids': [1, 2], 'cols': {'R': [1, 2], 'L': [['L'], ['L']]}}, 'P1': {'ids': [1, 2], 'cols': {}}}
+  corpus = [   # the bundles of seeded/C26-3/demo.py on this document
+    (empty, [['AddRecord', 'P1', -1, {}], ['AddRecord', 'P0', None, {'R': -1}], ['BulkUpdateRecord', 'P0', [1], {'R': [-1]}]],
+     [['AddRecord', 'P1', 3, {}], ['AddRecord', 'P0', 3, {'R': 3}], ['BulkUpdateRecord', 'P0', [1], {'R': [3]}]]),
+    (empty, [['BulkAddRecord', 'P0', [-1, -2], {}], ['AddRecord', 'P1', -7, {'P0': ['L', -2, -1]}]],
+     [['BulkAddRecord', 'P0', [3, 4], {}], ['AddRecord', 'P1', 3, {'P0': ['L', 4, 3]}]]),
+    (empty, [['BulkAddRecord', 'P0', [-1, -2], {'S': [['L', -2], ['L', -1, 1]], 'Q': [-2, -1]}]],
+     [['BulkAddRecord', 'P0', [3, 4], {'S': [['L', 4], ['L', 3, 1]], 'Q': [4, 3]}]]),
+  ]
+  cases = corpus + [gen_twoway(ctx.rng, tw) for _ in range(ctx.n(120, 1500))]
+  seen = {}
+  for doc, bundle, resolved in cases:
+    v = oracle_twoway(tw, doc, bundle, resolved)
+    uses_temp = any(isinstance(x, int) and x < 0 for a in bundle for x in _flat(a[3:] if a[0] != 'BulkRemoveRecord' else []))
+    ctx.count(('twoway', doc, bundle), nontrivial=uses_temp, kind='twoway-bundles')
+    if v is None:
+      continue
+    kind, what = v
+    ctx.bump('oracle:' + kind)
+    key = (len(bundle), len(repr(bundle)))
+    if kind not in seen or key < seen[kind][0]:
+      seen[kind] = (key, what, {'twoway': True, 'doc': doc, 'bundle': bundle, 'resolved': resolved})
+  for kind, (_k, what, w) in sorted(seen.items()):
+    ctx.violation(kind, what, w)
+
+
+def _flat(x):
+  if isinstance(x, dict):
+    for v in x.values():
+      for y in _flat(v):
+        yield y
+  elif isinstance(x, (list, tuple)):
+    for v in x:
+      for y in _flat(v):
+        yield y
+  else:
+    yield x
 
 
 def replay(ctx, w):
+  if w.get('twoway'):
+    v = oracle_twoway(get_twoway(ctx), w['doc'], w['bundle'], w['resolved'])
+    return None if v is None else '%s: %s' % v
   docs = get_docs(ctx)
   sch = [tuple(x) for x in w['schema']]
   doc = [[tuple(r) for r in tb] for tb in w['doc']]
@@ -820,3 +881,159 @@ def validate_translation(ctx):
   for i in bad[:5]:
     ctx.broken('correspondence:translated %s differs from the running code' % origin[i][0], origin[i][1][:600])
   ctx.extra['translator_validation'] = counts
+
+
+# ------------------------------------------------------------------------------------------------
+# two-way reference pairs (AddReverseColumn): oracle-only stream.  The model has no two-way columns; what is checked
+# here, on the implementation, is the property's metamorphic reading: a bundle whose temporary ids were all created by
+# its own (automatic) adds behaves exactly like the same bundle with the ids that will be allocated written out --
+# accepted with the same tables, or rejected alike.
+
+TW_TABLES = ('P0', 'P1')
+# column -> (table, kind, target table); the last four are the reverse halves created by AddReverseColumn
+TW_COLS = {'R': ('P0', 'ref', 'P1'), 'L': ('P0', 'list', 'P1'), 'S': ('P0', 'list', 'P0'), 'Q': ('P0', 'ref', 'P0')}
+TW_REV = {'R': ('P1', 'P0', 'list', 'P0'), 'L': ('P1', 'P0_L', 'list', 'P0'),
+          'S': ('P0', 'P0', 'list', 'P0'), 'Q': ('P0', 'P0_Q', 'list', 'P0')}
+
+
+class TwoWay(object):
+  def __init__(self):
+    from harness import rowids_env as env
+    self.env = env
+    self.e = env.new_doc([('P0', [('R', 'Ref:P1'), ('L', 'RefList:P1'), ('S', 'RefList:P0'), ('Q', 'Ref:P0')]), ('P1', [])])
+    self.cols = {t: {} for t in TW_TABLES}          # table -> {col: (kind, target)}
+    for c, (t, kind, tgt) in TW_COLS.items():
+      self.cols[t][c] = (kind, tgt)
+    for c in ('R', 'L', 'S', 'Q'):
+      out = env.apply(self.e, [['AddReverseColumn', 'P0', c]])
+      t, name, kind, tgt = TW_REV[c]
+      if out.retValues[0].get('colId') != name:
+        raise core.TieBroken('AddReverseColumn P0.%s created %r, expected %s.%s' % (c, out.retValues[0], t, name))
+      self.cols[t][name] = (kind, tgt)
+
+  def reset(self, doc):
+    env, e = self.env, self.e
+    for t in TW_TABLES:
+      old = env.row_ids(e, t)
+      if old:
+        env.apply(e, [['BulkRemoveRecord', t, old]])
+    for t in ('P1', 'P0'):
+      rows = doc[t]
+      if rows['ids']:
+        env.apply(e, [['BulkAddRecord', t, list(rows['ids']), copy.deepcopy(rows['cols'])]])
+    for t in TW_TABLES:
+      if env.row_ids(e, t) != sorted(doc[t]['ids']):
+        raise core.TieBroken('cannot reset the two-way document: %s has %r' % (t, env.row_ids(e, t)))
+
+  def run(self, doc, bundle):
+    env, e = self.env, self.e
+    self.reset(doc)
+    before = env.snapshot(e)
+    try:
+      out = env.apply(e, copy.deepcopy(bundle))
+    except Exception as ex:     # pylint: disable=broad-except
+      return {'outcome': env.exc_name(ex), 'msg': str(ex)[:160], 'unchanged': env.snapshot(e) == before}
+    snap = env.snapshot(e)
+    return {'outcome': 'ok', 'rets': [r for r in out.retValues], 'tables': {t: snap[t] for t in TW_TABLES}}
+
+
+def tw_value(rng, kind, pool, existing):
+  def one():
+    k = rng.random()
+    if k < 0.6 and pool:
+      return rng.choice(pool)
+    if k < 0.9 and existing:
+      return rng.choice(existing)
+    return 0
+  if kind == 'ref':
+    return one()
+  vals = [x for x in (one() for _ in range(rng.choice([0, 1, 2, 2, 3]))) if x != 0]
+  return ['L'] + vals
+
+
+def gen_twoway(rng, tw):
+  """-> (doc, bundle with temporary ids, the same bundle with the ids that will be allocated)"""
+  doc = {}
+  for t in ('P1', 'P0'):
+    ids = sorted(rng.sample(range(1, 6), rng.choice([0, 1, 2, 3])))
+    cols = {}
+    if t == 'P0':
+      p1 = doc['P1']['ids']
+      cols['R'] = [rng.choice(p1 + [0]) for _ in ids]
+      cols['L'] = [['L'] + rng.sample(p1, rng.randint(0, len(p1))) for _ in ids]
+    doc[t] = {'ids': ids, 'cols': cols}
+  nxt = {t: max(doc[t]['ids'] + [0]) + 1 for t in TW_TABLES}
+  alloc = {t: {} for t in TW_TABLES}           # temp id -> id that will be allocated (last definition)
+  rows = {t: list(doc[t]['ids']) for t in TW_TABLES}
+  bundle, resolved = [], []
+  def res(v, tgt):
+    if isinstance(v, list):
+      return ['L'] + [alloc[tgt].get(x, x) for x in v[1:]]
+    return alloc[tgt].get(v, v)
+  def colvals(t, n, own):
+    cv = {}
+    for c, (kind, tgt) in sorted(tw.cols[t].items()):
+      reverse_half = c not in TW_COLS
+      if rng.random() < (0.12 if reverse_half else 0.55):
+        # (a row of the same add as a two-way target is refused by the engine in both spellings: the reverse update is
+        #  applied before the rows exist; keep such self references rare)
+        pool = [x for x in alloc[tgt] if x not in own or rng.random() < 0.1]
+        cv[c] = [tw_value(rng, kind, pool, rows[tgt]) for _ in range(n)]
+    return cv
+  for _ in range(rng.choice([1, 2, 2, 3])):                       # automatic adds first: ids are predictable
+    t = rng.choice(TW_TABLES)
+    n = rng.choice([1, 1, 2])
+    ids = [rng.choice([None, -rng.randint(1, 3)]) for _ in range(n)]
+    own = [x for x in ids if x is not None]
+    final = [nxt[t] + k for k in range(n)]
+    for x, f in zip(ids, final):
+      if x is not None:
+        alloc[t][x] = f
+    nxt[t] += n
+    cv = colvals(t, n, own)
+    single = n == 1 and rng.random() < 0.5
+    if single:
+      bundle.append(['AddRecord', t, ids[0], {c: v[0] for c, v in cv.items()}])
+      resolved.append(['AddRecord', t, final[0], {c: res(v[0], tw.cols[t][c][1]) for c, v in cv.items()}])
+    else:
+      bundle.append(['BulkAddRecord', t, ids, cv])
+      resolved.append(['BulkAddRecord', t, final, {c: [res(x, tw.cols[t][c][1]) for x in v] for c, v in cv.items()}])
+    rows[t] += final
+  for _ in range(rng.choice([0, 1, 1, 2])):                       # then updates naming temp or real ids
+    t = rng.choice(TW_TABLES)
+    cands = list(alloc[t]) + rows[t]
+    if not cands:
+      continue
+    ids = [rng.choice(cands) for _ in range(rng.choice([1, 1, 2]))]
+    cv = colvals(t, len(ids), [])
+    if not cv:
+      continue
+    bundle.append(['BulkUpdateRecord', t, ids, cv])
+    resolved.append(['BulkUpdateRecord', t, [alloc[t].get(x, x) for x in ids],
+                     {c: [res(x, tw.cols[t][c][1]) for x in v] for c, v in cv.items()}])
+  if rng.random() < 0.25:                                         # and sometimes a removal
+    t = rng.choice(TW_TABLES)
+    cands = list(alloc[t]) + rows[t]
+    if cands:
+      ids = [rng.choice(cands)]
+      bundle.append(['BulkRemoveRecord', t, ids])
+      resolved.append(['BulkRemoveRecord', t, [alloc[t].get(x, x) for x in ids]])
+  return doc, bundle, resolved
+
+
+def oracle_twoway(tw, doc, bundle, resolved):
+  a = tw.run(doc, bundle)
+  b = tw.run(doc, resolved)
+  if a['outcome'] != 'ok' and not a['unchanged']:
+    return ('rejected-but-changed', 'the bundle raised %s but left a trace in the document' % a['outcome'])
+  if a['outcome'] != 'ok' and b['outcome'] == 'ok':
+    return ('resolvable-bundle-rejected', 'every temporary id is created by an add of the bundle, yet the bundle raises '
+            '%s (%s); written with the ids that get allocated it is accepted' % (a['outcome'], a.get('msg')))
+  if a['outcome'] == 'ok' and b['outcome'] != 'ok':
+    return ('resolved-bundle-rejected', 'the bundle is accepted, but written with the allocated ids it raises %s (%s)'
+            % (b['outcome'], b.get('msg')))
+  if a['outcome'] == 'ok' and a['tables'] != b['tables']:
+    diff = [t for t in TW_TABLES if a['tables'][t] != b['tables'][t]]
+    return ('temporary-ids-resolve-differently', 'two-way references: tables %r after the bundle differ from the tables '
+            'after the bundle written with the allocated ids: %r vs %r' % (diff, a['tables'][diff[0]], b['tables'][diff[0]]))
+  return None
